@@ -322,11 +322,14 @@ def execute(ch, cfg):
             entry.put(pkt)
     env.process(net.driver(ch, cfg["N"], items, Front(), long_gap=40))
     saved = random.uniform
+    saved_random = random.random
     random.uniform = fake_uniform
+    random.random = lambda: fake_uniform(0, 1)
     try:
         err = net.run(10 ** 9)
     finally:
         random.uniform = saved
+        random.random = saved_random
     name = "+".join(s.name for s in ctx.stages[:2])
     res.digest = (err, tuple(tuple((o[0], o[4][0], o[2]) for o in s.outs) for s in ctx.stages), tuple(lost_draws),
                   tuple((a.t, a.flow, a.size) for a in net.arrs))
